@@ -50,7 +50,7 @@ def ignored_reads(fx, select):
 def rule_ignored(run, fx, rule, select, floors=True, floor_n=1):
     run.rule(rule, "every value a reader takes from the font and then drops (a primitive read bound to a local that is never used) is a field the "
                    "specification lets a reader ignore: the local is named after a reserved field, padding, a binary-search hint or a minor version, or the "
-                   "field is audited in ledger/ignored.jsonl (key = ignored|function|name)")
+                   "field is audited in ledger/ignored.jsonl (key = ignored|function, with the number of ignored fields audited there)")
     n = 0
     for b, t, name in ignored_reads(fx, select):
         n += 1
@@ -58,7 +58,9 @@ def rule_ignored(run, fx, rule, select, floors=True, floor_n=1):
         if BY_NAME.search(bare):
             run.ok(rule, "%s: %s is ignored by name" % (b.path, name))
             continue
-        key = "ignored|%s|%s" % (b.root, bare)
+        # the ledger names the reader, not the local: renaming `_feature_params` is not a change of what the reader ignores. The budget of
+        # the function's entry is the number of its audited ignored fields, so one more ignored read in the same reader exceeds it
+        key = "ignored|%s" % b.root
         run.fail(rule, key, "%s reads a value from the font into `%s` and never uses it: if the field positions, counts or selects what follows, the "
                  "reader now takes that from somewhere else" % (b.path, name), b.loc(t), ledger="ignored", alt_keys=fx.alt_keys(b, key))
     if floors:
